@@ -1600,6 +1600,13 @@ class SpinSymKernel(ADKernel):
             X[:, self.down_active_dims]
         )
 
+    def __eq__(self, b):
+        return (
+            self.k == b.k
+            and self.up_active_dims == b.up_active_dims
+            and self.down_active_dims == b.down_active_dims
+        )
+
 
 class SubsetRBF(_SubsetMixin, DiffRBF):
     pass
